@@ -12,3 +12,9 @@ M("c18_db_arg_exec", ["C18", "C07"], "arg_flow", tier="quick",
 M("c18_db_arg_evalsha", ["C18", "C12"], "arg_flow", tier="quick",
   desc="Server::handle_evalsha_command passes its db parameter unchanged to the Lua entry point (EVALSHA runs in the connection's selected database, like EVAL)",
   fn=r"::handle_evalsha_command$", param="db", callee_params=["db", "db_index"])
+
+# the script path: redis.call -> LuaCommandAdapter::execute_lua_command -> UnifiedCommandExecutor::execute_* (db)
+for _fn in ("execute_string", "execute_list", "execute_set", "execute_hash", "execute_sorted_set", "execute_key", "execute_stream", "execute_scan", "execute_consumer_group", "execute_bit"):
+    M("c18_db_arg_" + _fn, ["C18"], "arg_flow", tier="quick",
+      desc="UnifiedCommandExecutor::%s (commands issued by scripts through redis.call): every StorageEngine call that has a database parameter receives this function's db unchanged on every feasible path" % _fn,
+      fn=r"UnifiedCommandExecutor::%s$|executor::.*::%s$" % (_fn, _fn), param="db", callee_params=["db", "db_index"])
